@@ -3,7 +3,7 @@ import PoxModel.Proofs.PacketExt
 # IGMPv3 membership reports (RFC 3376 §4.2): group records, checksum, round trip (C14 phase 2; core only)
 -/
 namespace Pox.Packet
-open Pox Pox.Layout Pox.Checksum
+open Pox Pox.PktLayout Pox.Checksum
 
 def u32sBytes : List Nat → Bytes
   | [] => []
